@@ -639,7 +639,7 @@ def gen_large(rng, target, want_opt, want_tsig):
 
 
 ROBJ_PADS = [2, 3, 4, 5, 7, 8, 16, 32, 64, 128, 468]
-ROBJ_ALGS = [b"hmac-sha256", b"hmac-sha1", b"hmac-sha512", b"hmac-sha224", b"hmac-sha384", b"hmac-md5", b"HMAC-SHA256"]
+ROBJ_ALGS = [b"hmac-sha256", b"hmac-sha1", b"hmac-sha512", b"hmac-sha224", b"hmac-sha384", b"HMAC-SHA256"]
 
 
 def gen_robj(rng):
@@ -674,7 +674,7 @@ def gen_robj(rng):
          "request_payload": 0, "pad": 0, "sections": sections, "opt": None, "tsig": None}
     if rng.chance(9, 10):
         c["opt"] = {"ttl": rng.choice([0, 0x8000, 0x01000000]), "payload": rng.choice([512, 1232, 4096]),
-                    "options": [[rng.choice([3, 10, 15, 65001]), rng.bytes(rng.below(12)).hex()] for _ in range(rng.below(3))]}
+                    "options": gen_options(rng)}
     if rng.chance(5, 6):
         kn = rng.choice([[b"key"] + base, [ql] + base, [b"key", ql] + base, base, [b"key", b"other", b""], [b"KEY", b"EXAMPLE", b""],
                          [b"k" * (1 + rng.below(30))] + base])
@@ -697,7 +697,8 @@ def gen_robj(rng):
         osz += rng.below(5)
         tsz = rng.choice([0, tsz + 1, max(0, tsz - 3), tsz])
     total = pos + osz + tsz + (((-(pos + osz + tsz)) % pad) if pad and c["opt"] is not None else 0)
-    c.update(pad=pad, opt_size=osz, tsig_size=tsz, hdr=rng.below(3), multi=rng.chance(1, 3), reserve=rng.chance(1, 2),
+    c.update(pad=pad, opt_size=osz, tsig_size=tsz, hdr=rng.below(3) if c["tsig"] is None else rng.choice([0, 2]),  # the header must be written before signing
+             multi=rng.chance(1, 3), reserve=rng.chance(1, 2),
              max_size=65535 if rng.chance(5, 6) else max(12, total + rng.range(-24, 3)))
     return c
 
